@@ -240,7 +240,10 @@ let () =
        end
        else if line.[0] = 'O' then begin
          let impl = String.sub line 2 (n - 2) in
-         if impl <> !pending_obs then diverge "obs" !pending_obs impl
+         (* the harness gave up waiting for this actor: there is no observation to compare; the stall or
+            hang is reported by the harness itself (the case is run again, a repeated hang is a monitor hit) *)
+         if String.length impl >= 7 && String.sub impl 0 7 = "at=HUNG" then skipping := true
+         else if impl <> !pending_obs then diverge "obs" !pending_obs impl
        end
        else if line.[0] = 'N' then begin
          let impl = String.sub line 2 (n - 2) in
